@@ -77,7 +77,7 @@ def canon(parsed):
     return (tuple(out), viol)
 
 
-def prepare(tier):
+def setup():
     hist.start_zygote()
 
 
